@@ -4,6 +4,7 @@ import CanvasModel.C01Avl
 import CanvasModel.C01Heap
 import CanvasModel.C01Cmp
 import CanvasModel.C01Merge
+import CanvasModel.C01Split
 import CanvasGen.SweepF
 open Canvas
 def handle : List String → Option String
@@ -16,5 +17,6 @@ def handle : List String → Option String
   | "CMP" :: rest => Canvas.C01Cmp.handle ("CMP" :: rest)
   | "IPY" :: rest => Canvas.C01Cmp.handle ("IPY" :: rest)
   | "MRG" :: rest => Canvas.C01Merge.handle ("MRG" :: rest)
+  | "ADDX" :: rest => Canvas.C01Split.handle ("ADDX" :: rest)
   | ts => Canvas.C01.handle ts
 def main : IO Unit := runDriver handle
